@@ -240,6 +240,10 @@ class Ctx:
                 return li
             if n == "std::convert::num::from" and e[2]:
                 return self.lin(e[2][0], depth + 1)
+            if last == "sum" and e[2]:
+                sl = self.sum_of_lengths(e[2][0])
+                if sl is not None:
+                    return self.atom(("len", ("sumlen", L_freeze(sl))), 0, ALLOC_TOTAL)
             return self.opaque(e)
         return self.opaque(e)
 
@@ -624,6 +628,26 @@ class Ctx:
                     if a and b_ and b_[1] - a[0] < 2 ** 32:
                         return max(0, b_[1] - a[0])
                 break
+        return None
+
+    def sum_of_lengths(self, it):
+        """it = map(iter(&C), closure) where the closure returns the length of a buffer held by its argument: C (L-ALLOC)"""
+        if not (it[0] == "call" and it[1].split("::")[-1] == "map" and len(it[2]) == 2):
+            return None
+        src, clo = it[2]
+        if not (src[0] == "call" and src[1].split("::")[-1] in ("iter", "into_iter") and src[2]):
+            return None
+        if not (clo[0] == "agg" and str(clo[1]).startswith("closure ")):
+            return None
+        name = [k for k in (self.u.bodies if self.u else {}) if mir.norm(k) == str(clo[1])[len("closure "):]]
+        if len(name) != 1:
+            return None
+        cb = self.u.bodies[name[0]]
+        r = sym.expr_local(cb, 0)
+        while r[0] == "cast":
+            r = r[4]
+        if r[0] == "call" and r[1].split("::")[-1] == "len" and r[2] and any(isinstance(y, tuple) and y[:2] == ("arg", 2) or (isinstance(y, tuple) and y and y[0] in ("load", "refplace") and str(y[1]).startswith("arg2")) for y in sym.walk(r[2][0])):
+            return src[2][0]
         return None
 
     def const_width(self, x):
@@ -1066,7 +1090,7 @@ class Ctx:
         if fn is None:
             return
         for (kind, k, val) in param_facts(self.u, fn):
-            if self.defs.get(k) or self.pdefs.get(k):
+            if kind != "env_len_ge1" and (self.defs.get(k) or self.pdefs.get(k)):
                 continue                  # the parameter is reassigned in the body
             if kind == "hi":
                 r = self.rng(self.b["locals"][k]["ty"])
@@ -1078,6 +1102,10 @@ class Ctx:
                     self.atom(("v", k), val, r[1])
             elif kind == "len_ge1":
                 self.extra.append(Lin(1) - self.atom(("len", val), 0, LEN_MAX))
+            elif kind == "env_len_ge1":
+                env = sym.expr_local(self.b, 1)
+                for key in (self.len_key(("proj", env, str(k))), ("len", "arg1.%d" % k)):
+                    self.extra.append(Lin(1) - self.atom(key, 0, LEN_MAX))
             elif kind == "le_len":
                 self.extra.append(self.atom(("v", k), 0, None) - self.atom(("len", val), 0, LEN_MAX))
 
@@ -1393,6 +1421,47 @@ def _call_sites(u, fn):
     return sites
 
 
+def _closure_env_facts(u, fn, cxs):
+    """captured slices/Vecs that are non-empty where the closure is created (captures are borrowed or moved at that point,
+    so their length is what the closure sees whenever it runs): [('env_len_ge1', capture index, None)]"""
+    b = u.bodies[fn]
+    parent = b.get("parent")
+    pb = u.bodies.get(parent)
+    if pb is None:
+        for k2, v2 in u.bodies.items():
+            if mir.norm(k2) == mir.norm(parent or ""):
+                parent, pb = k2, v2
+    if pb is None:
+        return []
+    made = []
+    for blk in pb["blocks"]:
+        for st in blk["stmts"]:
+            if st["k"] == "assign" and st["rv"]["k"] == "aggregate" and st["rv"].get("agg") == "closure" and st["rv"].get("closure") == fn:
+                made.append((blk["i"], st["rv"]["ops"]))
+    if len(made) != 1:
+        return []
+    bb, ops = made[0]
+    cx = cxs.setdefault(parent, Ctx(pb, u))
+    exprs = []
+    for op in ops:
+        e = sym.expr(pb, op)
+        while e[0] == "ref":
+            e = e[1]
+        exprs.append(e)
+    for e in exprs:
+        if cx.rng(cx.ty_of(e)):
+            cx.lin(e)                 # introduces the facts known about captured integers (e.g. an enumerate index)
+    out = []
+    for k, (op, e) in enumerate(zip(ops, exprs)):
+        ty = (op.get("place") or {}).get("ty", "") if op.get("k") in ("copy", "move") else ""
+        if "[" in ty or "Vec<" in ty or ty.endswith("str"):
+            key = cx.len_key(e)
+            good, _h = cx.prove_le0(Lin(1) - cx.atom(key, 0, LEN_MAX), bb)
+            if good:
+                out.append(("env_len_ge1", k, None))
+    return out
+
+
 def param_facts(u, fn):
     """facts about the parameters of a non-public function or closure that hold at every direct call site (L-PRE): list of
     ('hi'|'lo', local, bound) | ('len_ge1', local, callee-side length key) | ('le_len', local, callee-side length key)"""
@@ -1400,14 +1469,22 @@ def param_facts(u, fn):
         return _PF[fn]
     _PF[fn] = []
     b = u.bodies[fn]
-    if b.get("reachable_pub") or b.get("vis") == "Public":
+    if b.get("reachable_pub"):
         return []
     isclo = b.get("kind") == "Closure"
     sites = _call_sites(u, fn)
-    if not sites:
+    if sites is None and isclo:
+        _PF[fn] = _closure_env_facts(u, fn, {})
+        return _PF[fn]
+    if sites is None or (not sites and not isclo):
         return []
     out = []
     cxs = {}
+    if isclo:
+        out += _closure_env_facts(u, fn, cxs)
+        if not sites:
+            _PF[fn] = out
+            return out
     for k in range(1, b["argc"] + 1):
         ty = b["locals"][k]["ty"]
         if ty in INT_RANGE:
